@@ -373,6 +373,11 @@ func (s *gRPCWebSocketStream) SetTrailer(md metadata.MD) {
 }
 
 func (s *gRPCWebSocketStream) sendTrailer(st *status.Status) {
+	// The deadline must be set before waiting for sendMu: a send abandoned by withCtx can be blocked in WriteMessage
+	// for as long as the client doesn't read, holding the mutex. The deadline makes that write fail after wsCloseTimeout,
+	// otherwise the handler would wait here for as long as the client keeps the connection open.
+	_ = s.socket.NetConn().SetDeadline(time.Now().Add(wsCloseTimeout))
+
 	s.sendMu.Lock()
 	s.finished = true
 	s.sendMu.Unlock()
